@@ -58,7 +58,7 @@ def run(ctx):
 
 
 # ------------------------------------------------------------------------------------------------ scenarios
-DET = {"keep": 1, "t2": 2, "t3": 3, "trashed": 4, "s5": 5, "s6": 6, "x7": 7, "x8": 8, "new9": 9, "in10": 10, "in11": 11}
+DET = {"keep": 1, "t2": 2, "t3": 3, "trashed": 4, "s5": 5, "s6": 6, "x7": 7, "x8": 8, "new9": 9, "in10": 10, "in11": 11, "x12": 12}
 
 
 def build_template(tmp):
@@ -101,6 +101,10 @@ def build_template(tmp):
     remember("s6", r6, {"s": 56, "pad": "s" * 50})
     remember("x7", src.put({"x": 7, "pad": "a" * 60}, dt, instrument="I", detector=7), {"x": 7, "pad": "a" * 60})
     remember("x8", src.put({"x": 8, "pad": "b" * 60}, dt, instrument="I", detector=8), {"x": 8, "pad": "b" * 60})
+    # x12 is already in the target (transferred earlier): a later transfer that names it again must leave it alone
+    x12 = src.put({"x": 12, "pad": "c" * 60}, dt, instrument="I", detector=12)
+    remember("x12", x12, {"x": 12, "pad": "c" * 60})
+    b.transfer_from(src, [x12], transfer="copy")
     with open(os.path.join(area, "ext", "in.yaml"), "w") as fh:
         fh.write("i: 1011\npad: " + "i" * 80 + "\n")
     z = src.retrieve_artifacts_zip([src.get_dataset(uuid.UUID(meta["ids"][n])) for n in ("x7", "x8")], os.path.join(area, "ext"))
@@ -135,6 +139,12 @@ def scenario_ops():
         src = Butler.from_config(os.path.join(area, "src"))
         b.transfer_from(src, refs_of(src, meta, ["x7", "x8"]), transfer="copy")
 
+    def transfer_again(mode):
+        def f(b, area, meta):
+            src = Butler.from_config(os.path.join(area, "src"))
+            b.transfer_from(src, refs_of(src, meta, ["x12", "x8"]), transfer=mode)
+        return f
+
     def purge(names):
         return lambda b, area, meta: b.pruneDatasets(refs_of(b, meta, names), purge=True, unstore=True, disassociate=True)
 
@@ -156,6 +166,8 @@ def scenario_ops():
         "ingest-copy": ("insert", ["in10", "in11"], ingest("copy")),
         "ingest-move": ("insert", ["in10", "in11"], ingest("move")),
         "transfer": ("insert", ["x7", "x8"], transfer),
+        "transfer-again-hardlink": ("insert", ["x8"], transfer_again("hardlink")),
+        "transfer-again-symlink": ("insert", ["x8"], transfer_again("symlink")),
         "purge": ("remove", ["t2", "t3"], purge(["t2", "t3"])),
         "unstore": ("unstore", ["t2"], unstore),
         "purge-shared": ("remove", ["s5"], purge(["s5"])),
@@ -167,7 +179,7 @@ def scenario_ops():
 # ------------------------------------------------------------------------------------------------ one crash run
 def snapshot_files(area):
     out = {}
-    for top in ("repo", "ext"):
+    for top in ("repo", "ext", "src"):  # the source repository's artifacts are what link-mode transfers point at
         for dp, _, fs in os.walk(os.path.join(area, top)):
             for f in fs:
                 if "sqlite" in f or f == "butler.yaml":
@@ -323,7 +335,7 @@ def oracle(area, meta, scen):
     kind, targets, op = scenario_ops()[scen]
     problems = []
     b = Butler.from_config(os.path.join(area, "repo"), writeable=True, run="r1")
-    prepared = ["keep", "t2", "t3", "s5", "s6"]
+    prepared = ["keep", "t2", "t3", "s5", "s6", "x12"]
     state = {}
 
     def look(name):
